@@ -471,3 +471,29 @@ func (p *panicWriter) Write(b []byte) (int, error) {
 	p.got += len(b)
 	return len(b), nil
 }
+
+// boundaryErrReader cuts every Read at the next position in ends and, when a Read ends exactly there, returns its bytes
+// together with a non-EOF error once; the following Reads continue normally.
+type boundaryErrReader struct {
+	r    io.Reader
+	ends []int
+	pos  int
+}
+
+var errTransientRead = errors.New("verif: transient read error delivered with data")
+
+func (b *boundaryErrReader) Read(p []byte) (int, error) {
+	for len(b.ends) > 0 && b.ends[0] <= b.pos {
+		b.ends = b.ends[1:]
+	}
+	if len(b.ends) > 0 && b.pos+len(p) > b.ends[0] {
+		p = p[:b.ends[0]-b.pos]
+	}
+	n, err := b.r.Read(p)
+	b.pos += n
+	if err == nil && n > 0 && len(b.ends) > 0 && b.pos == b.ends[0] {
+		b.ends = b.ends[1:]
+		return n, errTransientRead
+	}
+	return n, err
+}
